@@ -6,6 +6,8 @@ import Gmars.Spec.Program
 import Gmars.Proofs.LoadOK
 import Gmars.Proofs.AsmLabels
 import Gmars.Proofs.Render
+import Gmars.Proofs.AsmCompose
+import Gmars.Proofs.AsmEqu
 
 namespace Gmars.Props.C03
 open Gmars
@@ -68,12 +70,49 @@ theorem parse_lex_any_spacing (p : Render.WProg) (hlex : ∀ it ∈ p.items, it.
     parse (Lex.tokens (Render.renderLines ls)) = .ok (some (p.toProg.lines, p.toProg.metadata)) :=
   Render.parse_lex_any_spacing p hlex hp ls hls hsame
 
+open AsmCompose AsmLine Render in
+/-- `assemble_meaning_partial` — the composed theorem for programs with labels (no EQU, no FOR):
+    for every such program `p` (labels with or without colons, blank lines, comment lines, ORG lines,
+    a final END), EVERY spacing `ls` of its words (any runs of blanks and tabs) and every byte
+    string that decodes to that text, under every accepted configuration with a core below 2^63 and
+    both dialects: the whole assembler — lexer, FOR pass loop, parser, compiler — returns exactly
+    the reference meaning of the abstract program, or rejects exactly when the reference does. -/
+theorem assemble_meaning_partial (cfg : Config) (sc : Spec.Cfg) (p : SProg)
+    (hv : cfg.validate = true) (h63 : cfg.coreSize.toNat < 2 ^ 63) (hr : CfgRel cfg sc)
+    (hlex : p.LexOK) (hnames : p.NamesOK) (hplain : ∀ it ∈ p.items, it.Plain)
+    (hnd : (p.labels ++ constNames).Nodup) (hcl : ∀ x ∈ p.names, x ∈ p.labels)
+    (hsmall : linstrCount p.litems < 2 ^ 63)
+    (hw : ProgWF sc.M (labelsFrom 0 p.litems) 0 p.litems)
+    (ls : List SrcLine) (hls : ∀ l ∈ ls, l.ok (some '\n') = true) (hsame : SameLines ls p.srcLines)
+    (src : List UInt8) (hsrc : decodeRunes src = renderLines ls) :
+    assemble cfg src =
+      match Spec.meaningFlat sc (p.litems.map LItem.toItem) with
+      | some m => .ok (toWD p.meta m)
+      | none => .err :=
+  AsmCompose.assemble_meaning_labels cfg sc p hv h63 hr hlex hnames hplain hnd hcl hsmall hw ls hls hsame src hsrc
+
+open AsmLine in
+/-- `compile_meaning` with EQUs — the compiler stage computes the reference meaning for programs
+    with labels AND EQU definitions placed anywhere (forward uses, EQU-in-EQU chains up to depth
+    62, predefined constants, `;assert` lines): EQU names are substituted TEXTUALLY (`x equ 1+2`,
+    `x*3` = 7), labels become offsets relative to the referring instruction -/
+theorem compile_meaning_equ (lexTokens : String → List Token) (cfg : Config) (sc : Spec.Cfg)
+    (prog : List XItem) (ameta : AsmMeta) (d : String → Nat)
+    (hv : cfg.validate = true) (h63 : cfg.coreSize.toNat < 2 ^ 63) (hr : CfgRel cfg sc)
+    (hnd : ((xlabelsFrom 0 prog).map (·.1) ++ (xequs prog).map (·.1) ++ constNames).Nodup)
+    (hsmall : xinstrCount prog < 2 ^ 63)
+    (hrk : ERanked (xequs prog ++ Spec.predefined sc) d) (hlt : ∀ s, d s < 63)
+    (hw : XProgWF lexTokens sc (xtables sc prog) 0 prog) :
+    compile lexTokens cfg (xrender 0 prog) ameta =
+      .ok ((Spec.meaningFlat sc (prog.map XItem.toItem)).map (toWD ameta)) :=
+  AsmLine.compile_meaning_equ lexTokens cfg sc prog ameta d hv h63 hr hnd hsmall hrk hlt hw
+
 /-
-  Still open as a single composed theorem: `assemble (render p) = meaning p` for programs with
-  EQUs and FOR blocks (the three stage theorems above and C08's pass theorems are its parts; the
-  source-line lists of `parse_lex_any_spacing` and `compile_meaning_labels` are not yet
-  identified with each other). The whole statement is checked by the asm94/asm88 domains on
-  15 000 renderings per run.
+  Still open: the composition of `compile_meaning_equ` and C08's `for_unroll_full` with the lexer
+  and parser stage theorems into one statement for programs with EQUs and FOR blocks; mnemonic
+  letter case and label renaming as explicit rendering steps (the stage theorems are stated for the
+  words as written; `opcode_any_case` gives case-insensitivity of the decoding). The whole statement
+  is checked by the asm94/asm88 domains on 15 000 renderings per run.
 -/
 
 end Gmars.Props.C03
